@@ -17,6 +17,8 @@ class VGen:
         self.prefix = prefix
         self.avoid = set(avoid)
         self.features = set()
+        self.local_pool = {}
+        self.cur_locals = set()
 
     def feature(self, name, p):
         """Optional shapes of valid programs that may be switched off (known findings)."""
@@ -30,6 +32,20 @@ class VGen:
         # a few letters of every part of the alphabet, in both cases, so that case folding is exercised on all of it
         tail = ["", "", "", "z", "Zq", "jk", "WX", "y"][self.n % 8]
         return "%s%s%s%d" % (self.prefix, stem, tail, self.n)
+
+    def local(self, stem):
+        """A POU-local name.  Real programs reuse the same few local names (i, x, timer) in many POUs, so about a
+        third of the locals are drawn from the names other POUs of this unit already use for the same purpose."""
+        pool = self.local_pool.setdefault(stem, [])
+        free = [n for n in pool if n not in self.cur_locals]
+        if free and self.chance(0.35):
+            name = self.pick(free)
+            self.features.add("local-name-shared")
+        else:
+            name = self.fresh(stem)
+            pool.append(name)
+        self.cur_locals.add(name)
+        return name
 
     def pick(self, seq):
         return seq[self.rng.randrange(len(seq))]
@@ -98,7 +114,8 @@ class VGen:
         n_functions = r.randint(0, 2) if n_functions is None else n_functions
         for _ in range(n_functions):
             name = self.fresh("Func")
-            inputs = [[self.fresh("a"), self.pick(INTS)] for _ in range(r.randint(1, 3))]
+            self.cur_locals = set()
+            inputs = [[self.local("a"), self.pick(INTS)] for _ in range(r.randint(1, 3))]
             d = {"k": "function", "name": name, "ret": self.pick(INTS), "inputs": inputs}
             names = [i[0] for i in inputs]
             d["body"] = [["assign", name, self.expr(names, [], 1)]]
@@ -134,26 +151,36 @@ class VGen:
                 d = self.pou("program", types, fbs, functions, globals_)
                 programs.append(d)
                 decls.append(d)
-            tasks = [[self.fresh("task"), r.randint(0, 10), self.pick([None, "T#100ms", "T#1s"])]
-                     for _ in range(r.randint(0, 2))]
-            progs = []
-            for _ in range(r.randint(1, 2)):
-                t = self.pick(tasks)[0] if tasks and self.chance(0.7) else None
-                prog = self.pick(programs)
-                conn = None
-                p_in = [x for x in prog["vars"] if x["class"] == "VAR_INPUT" and x["kind"] == "elem"]
-                if p_in and self.feature("progconf-connections", 0.15):
-                    conn = "%s := 1" % p_in[0]["name"]
-                progs.append([self.fresh("inst"), t, prog["name"]] + ([conn] if conn else []))
-            # qualifier is per block: split constant and plain globals into blocks when rendering
-            decls.append({"k": "config", "name": self.fresh("Config"), "resource": self.fresh("res"),
-                          "globals": globals_, "tasks": tasks, "programs": progs})
+            n_cfg = 2 if self.feature("two-configurations", 0.3) else 1
+            task_pool = []
+            for ci in range(n_cfg):
+                tasks = []
+                for _ in range(r.randint(0, 2)):
+                    # task names are scoped to their resource: another configuration may reuse them
+                    free = [n for n in task_pool if n not in [t[0] for t in tasks]]
+                    tn = self.pick(free) if free and self.chance(0.4) else self.fresh("task")
+                    if tn not in task_pool:
+                        task_pool.append(tn)
+                    tasks.append([tn, r.randint(0, 10), self.pick([None, "T#100ms", "T#1s"])])
+                progs = []
+                for _ in range(r.randint(1, 2)):
+                    t = self.pick(tasks)[0] if tasks and self.chance(0.7) else None
+                    prog = self.pick(programs)
+                    conn = None
+                    p_in = [x for x in prog["vars"] if x["class"] == "VAR_INPUT" and x["kind"] == "elem"]
+                    if p_in and self.feature("progconf-connections", 0.15):
+                        conn = "%s := 1" % p_in[0]["name"]
+                    progs.append([self.fresh("inst"), t, prog["name"]] + ([conn] if conn else []))
+                # qualifier is per block: split constant and plain globals into blocks when rendering
+                decls.append({"k": "config", "name": self.fresh("Config"), "resource": self.fresh("res"),
+                              "globals": globals_ if ci == 0 else copy.deepcopy(globals_), "tasks": tasks, "programs": progs})
         return decls
 
     # ------------------------------------------------------------ POUs
     def pou(self, kind, types, fbs, functions, globals_):
         r = self.rng
         name = self.fresh("Fb" if kind == "fb" else "Prog")
+        self.cur_locals = {g["name"] for g in globals_}
         vars_ = []
         scalars = []          # names of elementary variables usable in expressions / as targets
         for cls in ["VAR_INPUT", "VAR_OUTPUT", "VAR"]:
@@ -173,18 +200,25 @@ class VGen:
                                          ("TOD", "TOD#12:30:15"), ("DT", "DT#2021-01-01-00:00:00"), ("REAL", "1.5"),
                                          ("LREAL", "-2.5E3"), ("BOOL", "TRUE"), ("WORD", "16#FF"), ("BYTE", "BYTE#7"),
                                          ("INT", "INT#-5"), ("DINT", "2#1010")])
-                v = {"name": self.fresh("v"), "class": cls, "qual": qual, "type": t,
+                v = {"name": self.local("v"), "class": cls, "qual": qual, "type": t,
                      "init": init, "kind": "elem"}
                 vars_.append(v)
                 scalars.append(v["name"])
         if self.chance(0.4):
-            vars_.append({"name": self.fresh("k"), "class": "VAR", "qual": "CONSTANT", "type": self.pick(INTS),
+            vars_.append({"name": self.local("k"), "class": "VAR", "qual": "CONSTANT", "type": self.pick(INTS),
                           "init": "42", "kind": "elem"})
             scalars_ro = [vars_[-1]["name"]]
         else:
             scalars_ro = []
         if self.chance(0.3):
-            vars_.append({"name": self.fresh("io"), "class": "VAR_IN_OUT", "qual": "", "type": self.pick(INTS),
+            # constants of the other elementary kinds, the empty string included
+            t, init = self.pick([("STRING", "''"), ("STRING", "'abc'"), ("STRING[%d]" % r.randint(1, 20), "''"),
+                                 ("WSTRING", '""'), ("WSTRING", '"x y"'), ("REAL", "0.0"), ("BOOL", "FALSE"),
+                                 ("TIME", "T#0s"), ("DATE", "D#1970-01-01"), ("BYTE", "0"), ("INT", "0")])
+            vars_.append({"name": self.local("kc"), "class": "VAR", "qual": "CONSTANT", "type": t,
+                          "init": init, "kind": "const"})
+        if self.chance(0.3):
+            vars_.append({"name": self.local("io"), "class": "VAR_IN_OUT", "qual": "", "type": self.pick(INTS),
                           "init": None, "kind": "elem"})
         enum_vars = []
         for e in types["enums"]:
@@ -192,7 +226,7 @@ class VGen:
                 init = self.pick(e["values"])
                 if self.feature("enum-init-typed", 0.2):
                     init = "%s#%s" % (e["name"], init)
-                v = {"name": self.fresh("e"), "class": "VAR", "qual": "", "type": e["name"],
+                v = {"name": self.local("e"), "class": "VAR", "qual": "", "type": e["name"],
                      "init": init, "kind": "enum", "values": e["values"]}
                 vars_.append(v)
                 enum_vars.append(v)
@@ -202,29 +236,29 @@ class VGen:
                 simple = [e for e in s["elems"] if e[1] in INTS]
                 if simple and self.chance(0.4):
                     init = "(%s)" % ", ".join("%s := %d" % (e[0], r.randint(0, 9)) for e in simple[:2])
-                vars_.append({"name": self.fresh("s"), "class": "VAR", "qual": "", "type": s["name"], "init": init,
+                vars_.append({"name": self.local("s"), "class": "VAR", "qual": "", "type": s["name"], "init": init,
                               "kind": "struct", "elems": s["elems"]})
         if self.chance(0.2):
             vals = [self.fresh("iv") for _ in range(r.randint(2, 3))]
-            vars_.append({"name": self.fresh("ie"), "class": "VAR", "qual": "", "type": "(%s)" % ", ".join(vals),
+            vars_.append({"name": self.local("ie"), "class": "VAR", "qual": "", "type": "(%s)" % ", ".join(vals),
                           "init": self.pick([None, vals[-1]]), "kind": "inline-enum"})
         # a variable of a declared subrange type is answered with P9999 by the analyzer (unsupported): left out
         for a in types["arrays"]:
             if self.chance(0.4):
-                vars_.append({"name": self.fresh("arr"), "class": "VAR", "qual": "", "type": a["name"], "init": None,
+                vars_.append({"name": self.local("arr"), "class": "VAR", "qual": "", "type": a["name"], "init": None,
                               "kind": "array", "lo": a["lo"], "hi": a["hi"]})
         for s in types["strings"]:
             if self.chance(0.3):
-                vars_.append({"name": self.fresh("str"), "class": "VAR", "qual": "", "type": s["name"], "init": None,
+                vars_.append({"name": self.local("str"), "class": "VAR", "qual": "", "type": s["name"], "init": None,
                               "kind": "string"})
         if self.chance(0.3):
             lo = r.randint(0, 2)
-            vars_.append({"name": self.fresh("la"), "class": "VAR", "qual": "",
+            vars_.append({"name": self.local("la"), "class": "VAR", "qual": "",
                           "type": "ARRAY[%d..%d] OF INT" % (lo, lo + r.randint(1, 5)),
                           "init": self.pick([None, None, "[1, 2]", "[2(7)]"]), "kind": "array",
                           "lo": lo, "hi": lo + 1})
         if self.chance(0.3):
-            vars_.append({"name": self.fresh("ls"), "class": "VAR", "qual": "", "type": "STRING[%d]" % r.randint(1, 40),
+            vars_.append({"name": self.local("ls"), "class": "VAR", "qual": "", "type": "STRING[%d]" % r.randint(1, 40),
                           "init": self.pick([None, "'abc'"]), "kind": "string"})
         insts = []
         for fb in fbs:
@@ -233,7 +267,7 @@ class VGen:
                 fb_ins = [x for x in fb["vars"] if x["class"] == "VAR_INPUT" and x["kind"] == "elem"]
                 if fb_ins and self.feature("fb-instance-init", 0.15):
                     init = "(%s := 1)" % fb_ins[0]["name"]
-                v = {"name": self.fresh("inst"), "class": "VAR", "qual": "", "type": fb["name"], "init": init,
+                v = {"name": self.local("inst"), "class": "VAR", "qual": "", "type": fb["name"], "init": init,
                      "kind": "fb", "fb": fb["name"]}
                 vars_.append(v)
                 insts.append((v["name"], fb))
@@ -250,11 +284,11 @@ class VGen:
             vars_.append({"name": self.pick(shadow)["name"], "class": "VAR", "qual": "CONSTANT", "type": "INT",
                           "init": "3", "kind": "elem"})
         if kind == "fb" and self.feature("edge-input-used", 0.2):
-            vars_.append({"name": self.fresh("trig"), "class": "VAR_INPUT", "qual": "", "type": "BOOL R_EDGE",
+            vars_.append({"name": self.local("trig"), "class": "VAR_INPUT", "qual": "", "type": "BOOL R_EDGE",
                           "init": None, "kind": "edge"})
             scalars_ro.append(vars_[-1]["name"])
         if kind == "program" and self.chance(0.3):
-            vars_.append({"name": self.fresh("loc"), "class": "VAR", "qual": "", "type": "BOOL", "init": None,
+            vars_.append({"name": self.local("loc"), "class": "VAR", "qual": "", "type": "BOOL", "init": None,
                           "kind": "elem", "at": "%%IX%d.%d" % (r.randint(0, 9), r.randint(0, 7))})
             scalars.append(vars_[-1]["name"])
         d = {"k": kind, "name": name, "vars": vars_}
@@ -358,6 +392,25 @@ class VGen:
                 out.append(["assign", self.pick(targets), self.expr(readable, None, 1)])
         return out
 
+    def out_target(self, targets):
+        """Where an output of an invocation is stored: a variable, an array element (constant, variable or computed
+        subscript) or a structure member."""
+        ctx = getattr(self, "ctx", {})
+        k = self.rng.randrange(6)
+        if k == 0 and ctx.get("arrays"):
+            a = self.pick(ctx["arrays"])
+            sub = self.pick([str(a["lo"]), self.pick(targets), "%s + 1" % self.pick(targets),
+                             "-%s" % self.pick(targets), "(%s * 2) - %d" % (self.pick(targets), a["lo"])])
+            self.features.add("out-target-array")
+            return "%s[%s]" % (a["name"], sub)
+        if k == 1 and ctx.get("structs"):
+            st = self.pick(ctx["structs"])
+            simple = [e for e in st["elems"] if e[1] in INTS]
+            if simple:
+                self.features.add("out-target-member")
+                return "%s.%s" % (st["name"], self.pick(simple)[0])
+        return self.pick(targets)
+
     def fbcall(self, insts, readable, targets):
         inst, fb = self.pick(insts)
         ins = [v for v in fb["vars"] if v["class"] == "VAR_INPUT"]
@@ -370,7 +423,7 @@ class VGen:
                     args.append(["in", v["name"], self.expr(readable, None, 1)])
             for v in outs:
                 if self.chance(0.5):
-                    args.append(["out", v["name"], self.pick(targets)])
+                    args.append(["out", v["name"], self.out_target(targets)])
         elif style == "positional":
             for v in ins:
                 args.append(["pos", self.expr(readable, None, 1)])
@@ -518,8 +571,23 @@ def render_decl(d):
     raise AssertionError(k)
 
 
-def render_unit(decls):
-    return "\n\n".join(render_decl(d) for d in decls) + "\n"
+OSCAT_TEXTS = ["version 1.0\t1. jan. 2000\nfirst unit of the export", "it's the block's description: 100% free text ?",
+               "x := (1 + ;\nEND_TYPE", "caf\u00e9 \u00fc\u20ac units: \u00b0C", "", " "]
+
+
+def render_unit(decls, oscat=None):
+    """oscat: an rng; then the file is written the way an OSCAT export looks: description blocks
+    '(*@KEY@:DESCRIPTION*) free text (*@KEY@:END_DESCRIPTION*)' in front of some declarations.  The first block of a
+    file carries free text (the preprocessor blanks it), later blocks are empty (only one is blanked per file)."""
+    parts = [render_decl(d) for d in decls]
+    if oscat is not None and parts and oscat.random() < 0.6:
+        n = min(len(parts), oscat.randint(1, 3))
+        where = sorted(oscat.sample(range(len(parts)), n))
+        for rank, w in enumerate(where):
+            body = oscat.choice(OSCAT_TEXTS) if rank == 0 else oscat.choice(["", "\n", " "])
+            sep = oscat.choice(["\n", " ", ""])
+            parts[w] = "(*@KEY@:DESCRIPTION*)%s%s%s(*@KEY@:END_DESCRIPTION*)\n%s" % (sep, body, sep, parts[w])
+    return "\n\n".join(parts) + "\n"
 
 
 # ---------------------------------------------------------------- fault planters
@@ -557,12 +625,44 @@ def pou_position(decls, i):
     return "middle-pou"
 
 
+def foreign_names(decls, i, kind):
+    """Names that other POUs of the unit declare as a variable of this kind and that POU i does not declare (and that
+    are not global): 'undeclared here, declared next door'."""
+    d = decls[i]
+    own = {v["name"] for v in d.get("vars", [])} | {n for n, _t in d.get("inputs", [])} | {d["name"]}
+    glob = {g["name"] for c in decls if c["k"] == "config" for g in c["globals"]}
+    out = []
+    for j, o in enumerate(decls):
+        if j == i or o["k"] not in ("fb", "program"):
+            continue
+        for v in o["vars"]:
+            if v["kind"] == kind and v["class"] != "VAR_EXTERNAL" and v["name"] not in own and v["name"] not in glob \
+                    and v["name"] not in out:
+                out.append(v["name"])
+    return out
+
+
 def plant_all(decls):
     """Every (rule, site) single fault of the unit: yields (code, site description, mutated decls,
     spellings the diagnostic may point at)."""
     for i, d in enumerate(decls):
         k = d["k"]
         pos = pou_position(decls, i)
+        if k in ("fb", "program", "function") and not (d["body"] and d["body"][0][0] == "raw"):
+            # names that are declared, but in another POU
+            fv = foreign_names(decls, i, "elem")
+            fi = foreign_names(decls, i, "fb")
+            if fv:
+                m = copy.deepcopy(decls)
+                m[i]["body"].insert(0, ["assign", first_target(d) if k != "function" else d["name"], "(%s + 1)" % fv[0]])
+                yield "P0015", "%s:%s:top:rhs-declared-elsewhere" % (k, pos), m, [fv[0]]
+            if fi:
+                m = copy.deepcopy(decls)
+                m[i]["body"].insert(0, ["fbcall", fi[0], [], "?"])
+                yield "P0021", "%s:%s:top:instance-declared-elsewhere" % (k, pos), m, [fi[0]]
+                m = copy.deepcopy(decls)
+                m[i]["body"].append(["fbcall", fi[-1], [], "?"])
+                yield "P0021", "%s:%s:end:instance-declared-elsewhere" % (k, pos), m, [fi[-1]]
         if k == "struct" and d["elems"]:
             m = copy.deepcopy(decls)
             m[i]["elems"].append([m[i]["elems"][0][0], "INT"])
@@ -581,6 +681,14 @@ def plant_all(decls):
                 m = copy.deepcopy(decls)
                 m[i]["programs"][j][1] = "NoSuchTask"
                 yield "P0011", "progconf%d" % j, m, ["NoSuchTask"]
+                mine = {t[0] for t in d["tasks"]}
+                for i2, d2 in enumerate(decls):
+                    other = [t[0] for t in d2.get("tasks", []) if t[0] not in mine] if d2["k"] == "config" and i2 != i else []
+                    if other:
+                        # a task that exists, but in another configuration's resource
+                        m = copy.deepcopy(decls)
+                        m[i]["programs"][j][1] = other[0]
+                        yield "P0011", "progconf%d-task-of-%s-config" % (j, "later" if i2 > i else "earlier"), m, [other[0]]
         if k == "function":
             for lst, idx, path in walk_stmts(d["body"]):
                 st = lst[idx]
@@ -613,7 +721,7 @@ def plant_all(decls):
                     m[i]["vars"].insert(j + 1, {"name": "unusedVar", "class": v["class"], "qual": v["qual"],
                                                 "type": "NoSuchType", "init": None, "kind": "elem"})
                     yield "P0022", "%s:%s:%s" % (k, pos, blk), m, ["NoSuchType"]
-                if v["kind"] == "elem" and v["qual"] == "CONSTANT" and v["class"] == "VAR":
+                if v["kind"] in ("elem", "const") and v["qual"] == "CONSTANT" and v["class"] == "VAR":
                     m = copy.deepcopy(decls)
                     m[i]["vars"][j]["init"] = None
                     yield "P0016", "%s:%s" % (k, pos), m, [v["name"]]
@@ -664,6 +772,14 @@ def plant_all(decls):
                         ("P0008", [["pos", "1"]] * (len(ins) + 1)),
                         ("P0009", [["out", "noSuchOutput", d["body"] and first_target(d)]]),
                     ]
+                    # the same fault with the other shapes of an output target (the diagnostic prints the target)
+                    arrs = [v for v in d["vars"] if v["kind"] == "array"]
+                    for a_ in arrs[:1]:
+                        for sub in ("%d" % a_["lo"], first_target(d), "%s + 1" % first_target(d), "-%s" % first_target(d)):
+                            faults.append(("P0009", [["out", "noSuchOutput", "%s[%s]" % (a_["name"], sub)]]))
+                    strs = [v for v in d["vars"] if v["kind"] == "struct"]
+                    for s_ in strs[:1]:
+                        faults.append(("P0009", [["out", "noSuchOutput", "%s.%s" % (s_["name"], s_["elems"][0][0])]]))
                     for code, args in faults:
                         if args is None:
                             continue
